@@ -67,7 +67,7 @@ def lean_ty(t):
             return "(" + " → ".join([lean_ty(a) for a in t[1]] + [res]) + ")"
     return {"int": "Int", "bool": "Bool", "str": "Str", "bytes": "(List Nat)", "row": "Row", "frag": "Fragment", "gap": "Gap",
             "ovres": "OverlapResult", "scaffold": "Scaffold", "bytesio": "PyRt.BytesIO", "unit": "Unit", "sink_str": "Str",
-            "sink_bytes": "(List Nat)", "nat": "Nat", "trtable": "(Char → Char)", "fastainfo": "FastaInfo"}[t]
+            "sink_bytes": "(List Nat)", "nat": "Nat", "trtable": "(Char → Char)", "fastainfo": "FastaInfo", "ovref": "Nat", "premise": "Premise", "store": "(List Res)"}[t]
 
 
 # OBJECT TABLE: (type, python attribute) -> (result type, lean template, may raise)
@@ -92,6 +92,12 @@ ATTR = {
     ("ovres", "end_row_bait_overlap"): ("int", "{0}.endRowBaitOverlap", True),
     ("scaffold", "rows"): (L("row"), "{0}.rows", False), ("scaffold", "name"): ("str", "{0}.name", False),
     ("fastainfo", "length"): ("int", "{0}.length", False),
+    ("frag", "key_tuple"): (("tuple", ["str", "int", "int"]), "{0}.keyTuple", False),
+    # overhang premises (heap kernels only: the templates read the store of OverlapResults)
+    ("premise", "fragment"): ("frag", "{0}.fragment", False), ("premise", "scaffold"): ("ovref", "{0}.sid", False),
+    ("premise", "bait_overlap"): ("int", "(Premise.baitOverlap {0} store)", True),
+    ("premise", "overhang_if_applied"): ("int", "(Premise.overhangIfApplied {0} store)", True),
+    ("premise", "overhang_error_delta_if_applied"): ("int", "(Premise.delta {0} store)", True),
     ("ovres", "name"): ("str", "{0}.name", False), ("ovres", "original_name"): (O("str"), "{0}.originalName", False),
     ("ovres", "original_tags"): (O(L("str")), "{0}.originalTags", False),
 }
@@ -106,6 +112,12 @@ PURE_METHOD = {("frag", "abuts"): (["frag"], "bool", "(Fragment.abuts {0} {1})")
                # generator methods of Scaffold, as the lists they yield
                ("scaffold", "fragments"): ([], L("frag"), "(Scaffold.fragments {0})"),
                ("bytesio", "getvalue"): ([], "bytes", "({0}).data")}
+# methods that read (may raise): (type, method) -> (arg types, result type, template of an R-term)
+IMPURE_METHOD = {("ovres", "overhang_if_start_removed"): ([], "int", "(OverlapResult.overhangIfStartRemoved {0})"),
+                 ("ovres", "overhang_if_end_removed"): ([], "int", "(OverlapResult.overhangIfEndRemoved {0})"),
+                 ("ovres", "fragment_start_if_trimmed"): (["frag"], "int", "(OverlapResult.fragmentStartIfTrimmed {0} {1})"),
+                 ("premise", "improves"): (["int"], "bool", "(Premise.improves {0} store {1})"),
+                 ("premise", "makes_worse"): (["int"], "bool", "((Premise.improves {0} store {1}).map (fun b => !b))")}
 ERR = {"ValueError": "value", "IndexError": "index", "KeyError": "key", "TypeError": "type", "NotImplementedError": "notImpl"}
 RESERVED = {"end", "from", "at", "in", "do", "then", "else", "if", "let", "have", "show", "fun", "match", "with", "where", "by", "open",
             "section", "namespace", "def", "theorem", "instance", "structure", "class", "deriving", "import", "max", "min", "new", "this", "rows"}
@@ -153,6 +165,13 @@ def assigned(stmts):
 
     for s in stmts:
         for n in ast.walk(s):
+            if isinstance(n, (ast.Assign, ast.AugAssign)):
+                for t in (n.targets if isinstance(n, ast.Assign) else [n.target]):
+                    if isinstance(t, ast.Attribute) and dotted(t):
+                        add(dotted(t).replace(".", "_"))          # an attribute path that is a declared root variable
+            if isinstance(n, ast.Call) and isinstance(n.func, ast.Attribute) and n.func.attr == "append" and isinstance(n.func.value, ast.Call) \
+                    and isinstance(n.func.value.func, ast.Attribute) and n.func.value.func.attr == "setdefault" and dotted(n.func.value.func.value):
+                add(dotted(n.func.value.func.value).replace(".", "_"))
             if isinstance(n, ast.Assign):
                 for t in n.targets:
                     for el in (t.elts if isinstance(t, ast.Tuple) else [t]):
@@ -167,6 +186,12 @@ def assigned(stmts):
                 add(n.target.id)
             elif isinstance(n, ast.Yield):
                 add("yielded_")
+            elif isinstance(n, ast.Call) and isinstance(n.func, ast.Attribute) and n.func.attr in ("apply", "trim_fragment"):
+                add("store")
+                if n.func.attr == "trim_fragment":
+                    add("nextOid")
+            elif isinstance(n, (ast.Assign, ast.AugAssign)) and False:
+                pass
             elif isinstance(n, ast.Call) and isinstance(n.func, ast.Name) and n.func.id == "compare_func":
                 add("over_pairs")
             elif isinstance(n, ast.For):
@@ -238,8 +263,12 @@ class Kernel:
 
     def wrap_term(self, binds, inner):
         out = inner
-        for name, term, ty in reversed(binds):
-            out = f"({term} >>= fun ({name} : {lean_ty(ty)}) => {out})"
+        for b in reversed(binds):
+            name, term, ty = b[0], b[1], b[2]
+            if len(b) > 3 and b[3] == "let":
+                out = f"(let {name} : {lean_ty(ty)} := {term}; {out})"
+            else:
+                out = f"({term} >>= fun ({name} : {lean_ty(ty)}) => {out})"
         return out
 
     def expr(self, e, env, binds):
@@ -280,7 +309,10 @@ class Kernel:
                 self.param(nm, ty)
                 return nm, ty
             b, tb = self.expr(e.value, env, binds)
-            key = (tb, e.attr.lstrip("_") if (tb, e.attr) not in ATTR else e.attr)
+            if tb == "ovref":
+                b, tb = f"(getRes store {b})", "ovres"       # a reference to an OverlapResult: an index into the store
+            tb_k = tb if isinstance(tb, str) else "-"
+            key = (tb_k, e.attr.lstrip("_") if (tb_k, e.attr) not in ATTR else e.attr)
             if key not in ATTR:
                 raise Unsupported(f"attribute .{e.attr} of {tb}")
             ty, tmpl, imp = ATTR[key]
@@ -516,9 +548,12 @@ class Kernel:
                 raise Unsupported(f"call shape of {path}")
             args = []
             for a, want in zip(e.args, argt):
+                if want == "skip":
+                    continue                      # an object argument the callee only uses for what the kernel's theorem supplies separately
                 t, ty = self.expr(a, env, binds)
                 args.append(self.coerce(t, ty, want))
             nm = path.replace(".", "_")
+            argt = [a for a in argt if a != "skip"]
             self.param(nm, ("fun", argt, rty, imp))
             term = "(" + " ".join([nm] + args) + ")"
             if imp:
@@ -555,6 +590,16 @@ class Kernel:
                 (a, ta), (b, tb) = self.expr(e.args[0], env, binds), self.expr(e.args[1], env, binds)
                 if ta == tb == "int":
                     return f"({n} {a} {b})", "int"
+            if n == "abs" and len(e.args) == 1:
+                t, ty = self.expr(e.args[0], env, binds)
+                if ty == "int":
+                    return f"(if {t} < 0 then -{t} else {t})", "int"
+            if n in ("StartOverhangPremise", "EndOverhangPremise") and len(e.args) == 2:
+                (a, ta), (b, tb) = self.expr(e.args[0], env, binds), self.expr(e.args[1], env, binds)
+                if (ta, tb) != ("ovref", "frag"):
+                    raise Unsupported("premise constructor arguments")
+                kind = ".start" if n == "StartOverhangPremise" else ".stop"
+                return f"({{ kind := {kind}, sid := {a}, fragment := {b} }} : Premise)", "premise"
             if n == "sum" and len(e.args) == 1:
                 t, ty = self.expr(e.args[0], env, binds)
                 if ty == L("int"):
@@ -601,7 +646,18 @@ class Kernel:
                         raise Unsupported("sort key must be pure integers")
                     out.append(t)
                 return out
-            ks = keys(v)
+            try:
+                ks = keys(v)
+            except Unsupported:
+                # a key that may raise / reads the store: all keys are computed first, then a stable sort (PyRt.sortedByM)
+                env2 = dict(env)
+                env2[v] = tx[1]
+                kt, kty = self.impure(lam.body, env2)
+                if kty != "int":
+                    raise Unsupported("sort key type")
+                nm = self.fresh()
+                binds.append((nm, f"(PyRt.sortedByM (fun ({mg(v)} : {lean_ty(tx[1])}) => {kt}) {xs})", tx))
+                return nm, tx
             if len(ks) == 1:
                 ks = ks + ["(0 : Int)"]
             if len(ks) != 2:
@@ -651,7 +707,27 @@ class Kernel:
                 if ty == "str":
                     return f"(strToBytes {t})", "bytes"
             b, tb = self.expr(f.value, env, binds)
-            key = (tb, m)
+            if tb == "ovref" and m == "trim_fragment" and len(e.args) == 3 and "nextOid" in env:
+                # a mutating method reached through a reference, used as an expression: the store and the object-id counter move on
+                args = [self.expr(a, env, binds) for a in e.args]
+                if [t for _, t in args] != ["frag", "bool", "bool"]:
+                    raise Unsupported("trim_fragment arguments")
+                tf = self.fresh("tf")
+                binds.append((tf, f"(OverlapResult.trimFragment (getRes store {b}) {args[0][0]} {args[1][0]} {args[2][0]} nextOid)", ("tuple", ["ovres", "frag"])))
+                binds.append(("store", f"(PyRt.updRes store {b} {tf}.1)", "store", "let"))
+                binds.append(("nextOid", "(nextOid + 1)", "nat", "let"))
+                return f"{tf}.2", "frag"
+            if tb == "ovref":
+                b, tb = f"(getRes store {b})", "ovres"
+            key = (tb if isinstance(tb, str) else "-", m)
+            if key in IMPURE_METHOD:
+                argt, rty, tmpl = IMPURE_METHOD[key]
+                args = [self.coerce(*self.expr(a, env, binds), w) for a, w in zip(e.args, argt)]
+                nm = self.fresh()
+                binds.append((nm, tmpl.format(b, *args), rty))
+                return nm, rty
+            if isinstance(tb, tuple) and tb[0] == "dict" and m == "values" and not e.args:
+                return f"(({b}).map (fun kv => kv.2))", L(tb[2])
             if isinstance(tb, tuple) and tb[0] == "dict" and m == "get" and len(e.args) in (1, 2):
                 k, tk = self.expr(e.args[0], env, binds)
                 if tk != tb[1]:
@@ -718,8 +794,12 @@ class Kernel:
     def with_binds(self, binds, lines):
         """prefix `lines` (a term) with the impure pre-computations"""
         out = []
-        for name, term, ty in binds:
-            out.append(f"{term} >>= fun ({name} : {lean_ty(ty)}) =>")
+        for b in binds:
+            name, term, ty = b[0], b[1], b[2]
+            if len(b) > 3 and b[3] == "let":
+                out.append(f"let {name} : {lean_ty(ty)} := {term}")
+            else:
+                out.append(f"{term} >>= fun ({name} : {lean_ty(ty)}) =>")
         return out + lines
 
     def let(self, name, ty, term):
@@ -838,6 +918,20 @@ class Kernel:
                 lines.append(l)
             return self.with_binds(binds, lines + self.block(rest, env2, loop))
         tg = s.targets[0]
+        if isinstance(tg, ast.Attribute) and dotted(tg) in self.spec.get("dict_roots", {}):
+            nm = dotted(tg).replace(".", "_")
+            t, ty = self.expr(s.value, env, binds)
+            return self.with_binds(binds, [self.let(nm, env[nm], self.coerce(t, ty, env[nm]))] + self.block(rest, env, loop))
+        if isinstance(tg, ast.Tuple) and len(tg.elts) == 2 and all(isinstance(n, ast.Name) for n in tg.elts) and not isinstance(s.value, ast.Tuple):
+            # a, b = xs  (a list of exactly two elements)
+            t, ty = self.expr(s.value, env, binds)
+            if not (isinstance(ty, tuple) and ty[0] == "list"):
+                raise Unsupported("unpacking of a non-list")
+            nm = self.fresh("un")
+            binds.append((nm, f"(PyRt.unpack2 {t})", ("tuple", [ty[1], ty[1]])))
+            l1, env2 = self.bind_var(tg.elts[0].id, f"{nm}.1", ty[1], env)
+            l2, env2 = self.bind_var(tg.elts[1].id, f"{nm}.2", ty[1], env2)
+            return self.with_binds(binds, [l1, l2] + self.block(rest, env2, loop))
         if isinstance(tg, ast.Tuple):
             if isinstance(s.value, ast.Tuple) and len(tg.elts) == len(s.value.elts) and all(isinstance(n, ast.Name) for n in tg.elts):
                 xs = [self.expr(v, env, binds) for v in s.value.elts]
@@ -961,6 +1055,34 @@ class Kernel:
     def call_stmt(self, c, rest, env, loop):
         f = c.func
         binds = []
+        path = dotted(f)
+        if path and path.startswith("logging."):
+            return self.block(rest, env, loop)          # log output is never modelled (its arguments are not evaluated here)
+        if path and path in self.spec.get("opaque", {}):
+            t, ty = self.call(c, env, binds)
+            return self.with_binds(binds, self.block(rest, env, loop))
+        if isinstance(f, ast.Attribute) and not c.keywords and f.attr == "append" and isinstance(f.value, ast.Call) \
+                and isinstance(f.value.func, ast.Attribute) and f.value.func.attr == "setdefault" and len(f.value.args) == 2 \
+                and isinstance(f.value.args[1], ast.List) and not f.value.args[1].elts and dotted(f.value.func.value) in self.spec.get("dict_roots", {}):
+            # d.setdefault(k, []).append(v)
+            d = dotted(f.value.func.value).replace(".", "_")
+            td = env[d]
+            k, tk = self.expr(f.value.args[0], env, binds)
+            v, tv = self.expr(c.args[0], env, binds)
+            if tk != td[1] or L(tv) != td[2]:
+                raise Unsupported("setdefault(...).append types")
+            return self.with_binds(binds, [self.let(d, td, f"dSet {d} {k} (((dGet? {d} {k}).getD []) ++ [{v}])")] + self.block(rest, env, loop))
+        if isinstance(f, ast.Attribute) and not c.keywords and not c.args and "store" in env:
+            obj, tobj = self.expr(f.value, env, binds)
+            if tobj == "premise" and f.attr == "apply":
+                nm = self.fresh("st")
+                binds.append((nm, f"(Premise.apply {obj} store)", "store"))
+                return self.with_binds(binds, [self.let("store", "store", nm)] + self.block(rest, env, loop))
+            if tobj == "ovref" and ("ovres", f.attr) in MUT_METHOD:
+                nm = self.fresh("mu")
+                binds.append((nm, f"({MUT_METHOD[('ovres', f.attr)]} (getRes store {obj}))", "ovres"))
+                return self.with_binds(binds, [self.let("store", "store", f"PyRt.updRes store {obj} {nm}")] + self.block(rest, env, loop))
+            binds = []
         if isinstance(f, ast.Attribute) and not c.keywords:
             m = f.attr
             if m == "pop":
@@ -1252,6 +1374,14 @@ def translate(spec):
         for p, ty in spec.get("sinks", {}).items():
             env[sink_name(p)] = ty
             k.roots.append((sink_name(p), ty))
+        if spec.get("heap"):
+            env["store"] = "store"
+            k.roots.append(("store", "store"))
+            k.param("store", "store")
+            if spec.get("oid_counter"):
+                env["nextOid"] = "nat"
+                k.roots.append(("nextOid", "nat"))
+                k.param("nextOid", "nat")
         if "yields" in spec:
             env["yielded_"] = L(spec["yields"])
             k.roots.append(("yielded_", L(spec["yields"])))
@@ -1281,7 +1411,7 @@ def translate(spec):
     rty = "Unit" if not parts else " × ".join(parts)
     sink_inits = [f"  let {mg(n)} : {lean_ty(t)} := []" for n, t in k.roots if t in ("sink_str", "sink_bytes") or n == "yielded_" or n in spec.get("extra_roots", {})]
     # parameter order = the order of the kernel's declaration (params, attr_params, opaque, then newOid): independent of the order of use
-    order = [p.replace(".", "_") for p in spec.get("dict_roots", {})] + [mg(n) for n in spec.get("params", {})] + [p.replace(".", "_") for p in spec.get("attr_params", {})] \
+    order = ["store", "nextOid"] + [p.replace(".", "_") for p in spec.get("dict_roots", {})] + [mg(n) for n in spec.get("params", {})] + [p.replace(".", "_") for p in spec.get("attr_params", {})] \
         + [p.replace(".", "_") for p in spec.get("opaque", {})] + ["newOid"]
     k.params.sort(key=lambda nt: order.index(nt[0]) if nt[0] in order else len(order))
     params = ("(fuel : Nat) " if k.uses_fuel else "") + " ".join(f"({n} : {lean_ty(t)})" for n, t in k.params)
@@ -1333,6 +1463,23 @@ IMP_KERNELS_3 = [
          extra_roots={"over_pairs": L(("tuple", [("tuple", ["frag", "scaffold"]), ("tuple", ["frag", "scaffold"])]))}),
 ]
 
+KEY_T = ("tuple", ["str", "int", "int"])
+IMP_KERNELS_4 = [
+    # the eight one-line methods of the two premise classes (`self.scaffold` is a reference into the store)
+    *[dict(file="assembly/build_utils.py", qual=f"{cls}.{m}", lean=f"{cls}_{m}", heap=True, returns="int", attr_params={"self.scaffold": "ovref"})
+      for cls in ("StartOverhangPremise", "EndOverhangPremise") for m in ("bait_overlap", "overhang_if_applied", "overhang_error_delta_if_applied")],
+    *[dict(file="assembly/build_utils.py", qual=f"{cls}.apply", lean=f"{cls}_apply", heap=True, attr_params={"self.scaffold": "ovref"})
+      for cls in ("StartOverhangPremise", "EndOverhangPremise")],
+    dict(file="assembly/build_utils.py", qual="OverhangResolver.add_overhang_premise", lean="OverhangResolver_add_overhang_premise", heap=True,
+         params={"fragment": "frag", "scffld": "ovref"}, dict_roots={"self.premises_by_fragment_key": ("dict", KEY_T, L("premise"))}),
+    dict(file="assembly/build_utils.py", qual="OverhangResolver.make_fixes", lean="OverhangResolver_make_fixes_imp", heap=True,
+         returns=L("premise"), locals={"fixes_made": L("premise")},
+         attr_params={"self.premises_by_fragment_key": ("dict", KEY_T, L("premise")), "self.error_length": "int"}),
+    dict(file="assembly/build_assembly.py", qual="BuildAssembly.cut_fragments", lean="BuildAssembly_cut_fragments", heap=True, oid_counter=True,
+         locals={"sub_fragments": L("frag")}, attr_params={"fnd.fragment": "frag", "fnd.scaffolds": L("ovref")},
+         dict_roots={"self.assembly_stats.cuts": "int"}, opaque={"self.qc_sub_fragments": (["skip", L("frag")], "unit", True)}),
+]
+
 IMP_KERNELS = [
     dict(file="assembly/indexed_assembly.py", qual="IndexedAssembly.find_overlaps", lean="IndexedAssembly_find_overlaps",
          params={"bait": "frag"}, returns=O("ovres"), locals={"ovr": O("int")},
@@ -1362,9 +1509,9 @@ IMP_KERNELS = [
 
 
 def main():
-    parts = ["/- GENERATED by harness/translate_imp.py from /repo/src — do not edit -/", "import AgpTpf.Model.PyRt", "import AgpTpf.Model.Lookup",
+    parts = ["/- GENERATED by harness/translate_imp.py from /repo/src — do not edit -/", "import AgpTpf.Model.PyRt", "import AgpTpf.Model.PyRtHeap", "import AgpTpf.Model.Lookup",
              "import AgpTpf.Model.Fasta", "set_option linter.unusedVariables false", "namespace AgpTpf.Gen.Imp", "open AgpTpf", ""]
-    for spec in IMP_KERNELS + IMP_KERNELS_2 + IMP_KERNELS_3:
+    for spec in IMP_KERNELS + IMP_KERNELS_2 + IMP_KERNELS_3 + IMP_KERNELS_4:
         parts.append(translate(spec))
     parts.append("end AgpTpf.Gen.Imp\n")
     txt = "\n".join(parts)
